@@ -16,7 +16,9 @@ RULE = ("(i) direct drive of a real REPEX_state.inf_retis and of the cached "
         "plus-ensembles, row permutations, rescaled rows (metamorphic: P "
         "unchanged; forces the permanent code path where the fast one ran); "
         "oracle = exact permanent by subset DP (ints: exact; floats: no "
-        "cancellation), tolerance 1e-9, plus double stochasticity and zero "
+        "cancellation), tolerance 1e-9 for 0/1 and 1e-6 for weighted matrices "
+        "(measured round-off of the program: 1e-8 relative), plus double "
+        "stochasticity and zero "
         "pattern. (ii) the same postcondition rides on scheduler-rig runs, so "
         "the matrices are literally those the sampler reaches, including the "
         "cache (stale-P detection). An independent block decomposition "
@@ -25,7 +27,8 @@ RULE = ("(i) direct drive of a real REPEX_state.inf_retis and of the cached "
         "that deviates from the permanent ratios and is known finding "
         "C02-F26 (re-observed by a direct probe, three exact entries of one "
         "13-14 block); every other matrix, also with 13-18 idle ensembles in "
-        "small blocks, must be exact to 1e-9. Non-trivial = idle block >= 2; "
+        "small blocks, must agree within the tolerance above. Non-trivial = "
+        "idle block >= 2; "
         "distinct = distinct (zero pattern, lock set, weights).")
 ASSUMPTIONS = [
     "reachable family: one [0-] row (1,0,..,0), plus rows with weight >0 "
@@ -34,7 +37,9 @@ ASSUMPTIONS = [
     "weights the program uses a Monte Carlo estimate (random_prob): by the "
     "letter of the property a violation, recorded as known finding C02-F26 "
     "(re-observed by a direct probe in every run); everything else must be "
-    "exact to 1e-9",
+    "exact (1e-9 for 0/1 weights, 1e-6 for real weights: floating-point "
+    "round-off of the program's signed permanent formula, measured 1e-8 "
+    "relative against exact rational arithmetic)",
 ]
 MUST_REACH = ["direct_inf_retis", "inf_retis", "prob_property",
               "mc_branch_probe"]
@@ -99,7 +104,7 @@ def _mcprobe(job):
     rec.ev["mc_probe_random_prob_called" if called else
            "mc_probe_exact_path_taken"] = 1
     err = max(errs)
-    if err > 1e-9:
+    if err > 1e-6:
         ok = called and err <= 0.25 and \
             abs(out[1:n + 1, 1:n + 1].sum(0) - 1).max() <= 1e-6
         rec.v.append({
@@ -204,7 +209,11 @@ def _check(rec, st, w, locks, tag):
     if len(idle) > 12:
         rec.ev["matrices_with_more_than_12_idle"] = \
             rec.ev.get("matrices_with_more_than_12_idle", 0) + 1
-    tol = 0.25 if mc else 1e-9
+    # 0/1 matrices: every code path is exact in floating point; weighted
+    # ones: the program's permanent formula alternates signs, a relative
+    # round-off of ~1e-8 was measured against exact rationals (weights up to
+    # 1e4, blocks of 7) - a bug moves P by 1e-3 or more
+    tol = 0.25 if mc else (1e-9 if ints and sub.max(initial=0) <= 1 else 1e-6)
     key = "mc_matrices" if mc else "exact_matrices"
     rec.ev[key] = rec.ev.get(key, 0) + 1
     if len(idle) >= 2:
@@ -218,7 +227,7 @@ def _check(rec, st, w, locks, tag):
                       "W": w.tolist(), "locks": locks.tolist(),
                       "P": out.tolist()})
     err = float(np.max(np.abs(got - ref))) if got.size else 0.0
-    if mc and np.all(np.isfinite(got)) and 1e-9 < err <= 0.25:
+    if mc and np.all(np.isfinite(got)) and 1e-6 < err <= 0.25:
         # by the letter of the property this is a violation: the program
         # estimates P by Monte Carlo for a block of more than 12 ensembles
         # (recorded as a known finding; anything else stays a violation)
@@ -343,7 +352,7 @@ def _rand(job):
             try:
                 out3 = np.asarray(st.inf_retis(w3, locks.copy()), dtype=float)
                 rec.ev["rescale_pairs"] = rec.ev.get("rescale_pairs", 0) + 1
-                if not (np.max(np.abs(out3 - out)) <= 1e-9):
+                if not (np.max(np.abs(out3 - out)) <= 1e-6):
                     rec.v.append({
                         "mech": "P-changes-under-row-rescaling",
                         "what": f"max diff {np.max(np.abs(out3 - out)):.3g}",
